@@ -74,8 +74,8 @@ CHECKS = {
         note="Assumed: CST node values are str; an arrow is in the header text iff new_node.returns is set (established by maybe_replace_function_return_type, which runs first; exercised by the stand-in, not proved); sequential composition of the four block contracts is the standard Hoare rule (blocks are contiguous by construction). Decorated definitions whose decorator has parentheses are outside the header-shape precondition."),
     "C19": dict(
         category="other", design_ref="DESIGN.md §5 C19",
-        technique="contract-based verification by dominance / frame / shape rules over the real ast of __main__.main, gen, gen_file and get_functions_and_classes; bounded run of gen and of the CLI for the rest",
-        text="PROVED (rule engine, all inputs): the call gen(**args_dict) in main is dominated by the exists-and-phase-0 guard with nothing in between; gen and gen_file never rebind output_filename, so the path appended to (mode 'a') is the very string the guard tested; get_functions_and_classes adds name_tpl.format(name=name) to __all__ exactly once per input item, in order, and returns one element per item; in gen_module the only statement kept above the hoisted imports (`from __future__` first) is kept under ast.get_docstring(parsed_ast), i.e. is the module docstring (if the guard is anything else, the real gen is run on an expression-statement --prepend with a __future__ import and a violation is reported only when that output does not compile). "
+        technique="contract-based deductive verification of ensure_valid_identifier (E1: regular-expression membership for the identifier alphabet, z3) plus dominance / frame / shape rules over the real ast of __main__.main, gen, gen_file, gen_module, get_emit_kwarg and get_functions_and_classes; bounded run of gen and of the CLI for the rest",
+        text="PROVED (rule engine, all inputs): the call gen(**args_dict) in main is dominated by the exists-and-phase-0 guard with nothing in between; gen and gen_file never rebind output_filename, so the path appended to (mode 'a') is the very string the guard tested; get_functions_and_classes adds name_tpl.format(name=name) to __all__ exactly once per input item, in order, and returns one element per item; the emitted symbol is named ensure_valid_identifier(name_tpl.format(name=name)) and (E1 contract, all strings) ensure_valid_identifier returns every non-empty ASCII identifier that is not a keyword and does not start with a digit unchanged, so the symbol's name IS the __all__ entry; in gen_module the only statement kept above the hoisted imports (`from __future__` first) is kept under ast.get_docstring(parsed_ast), i.e. is the module docstring (if the guard is anything else, the real gen is run on an expression-statement --prepend with a __future__ import and a violation is reported only when that output does not compile). "
              "BOUNDED only: the written module compiles, __all__ equals the defined template names, symbols parse back to their source interface, --prepend / --imports-from-file, and the CLI leaves an existing file untouched (plain, ./ and ~ spellings). One known finding (SQLAlchemy kinds: __all__ names undefined symbols).",
         note="Out of the bounded domain because they crash on the pinned tree: function and pydantic emit kinds through gen, --emit-and-infer-imports (stated in the evidence)."),
     "C01": dict(
